@@ -30,13 +30,15 @@ class Model:
     _evaluate_constraints).  entry: 'evaluate_individual' | 'io' | 'class' (just _evaluate_constraints)."""
 
     def __init__(self, h=0, r=0, T=1000, all_satisfied=False, symbolic_counts=False, first_seen=True, N=1000,
-                 entry="evaluate_individual", unit_fitness=False):
+                 entry="evaluate_individual", unit_fitness=False, abstract_fitness=False):
         self.solver_s = 0.0
         self.queries = 0
         self.facts = []
         self.per = []
         self.symbolic_counts = symbolic_counts
         self.unit_fitness = unit_fitness
+        self.abstract_fitness = abstract_fitness
+        self.fvars = []
         methods = {
             "evaluate_individual": Evaluator.evaluate_individual,
             "evaluate_hard_constraints": Evaluator.evaluate_hard_constraints,
@@ -138,9 +140,19 @@ class Model:
         if all_satisfied:
             self.facts += [s_ == t_, z3.Not(raised)]
         self.per.append((kind, i, s_, t_, raised))
+        if self.abstract_fitness:
+            # lemma cut: the per-constraint fitness is an FP variable that is either exactly 1.0
+            # (satisfied) or at most 1 - 2^-10 (violated; justified by the quotient lemma for totals <= 1000)
+            f = z3.FP(f"{kind}_f{i}", F64)
+            one = z3.FPVal(1.0, F64)
+            self.facts += [z3.Or(z3.fpEQ(f, one), z3.And(z3.fpGEQ(f, z3.FPVal(0.0, F64)), z3.fpLEQ(f, z3.FPVal(1.0 - 2.0 ** -10, F64)))),
+                           z3.fpEQ(f, one) == (s_ == t_)]
+            self.fvars.append(f)
         fit = Opaque(f"fit_{kind}{i}", attrs={"solved": SInt(s_), "total": SInt(t_), "failing_trees": [],
                                            "suggestion": Opaque("suggestion")},
-                     methods={"fitness": (lambda interp, st, obj, args: 1.0) if self.unit_fitness else "ConstraintFitness.fitness"})
+                     methods={"fitness": (lambda interp, st, obj, args: 1.0) if self.unit_fitness
+                              else (lambda interp, st, obj, args, f=(self.fvars[-1] if self.abstract_fitness else None): SFloat(f)) if self.abstract_fitness
+                              else "ConstraintFitness.fitness"})
 
         def fitness(interp, st, obj, args):
             out = []
